@@ -70,7 +70,7 @@ ASSUMPTIONS = [
     'multiplier bound: |r - exact| < 1 ulp of the binade of the exact product; an infinity/NaN output counts as an '
     'error-bound violation',
     'FPtoInt_SP: for |x| >= 2^31 only invalid == 1 is demanded (r and p_lost unconstrained); for |x| < 2^31 r and '
-    'p_lost are demanded and invalid is not (the statement does not say invalid is clear there); denorm is not checked',
+    'p_lost are demanded and invalid must be 0 (the flag means "magnitude of 2**31 or more"); denorm is not checked',
     'InttoFP_SP input is a signed 32-bit two\'s complement integer',
     'outputs are read after Simulator.propagateAll() on a simulator obtained once per shard; blocks are pure '
     'combinational so evaluation order inside a shard does not matter (replay re-evaluates on a fresh block)',
